@@ -176,7 +176,7 @@ func init() {
 		Batches: [2]int{1, 8}, PerBatch: [2]int{32, 32}, Cases: [2]int{40, 120},
 		Rule:        "cases = (multi-service, multi-method schema with distinct per-route required headers and URL parameters) x random multiset of 10-80 calls (route, request, per-call header options present/absent, content type) x parallelism in {1,2,4,8,16,32}; calls run concurrently through shared generated clients against one shared generated server in a binary built with -race; handlers are pure functions of the request (incl. deterministic failures). Oracle: no race detector report, and every call's response/error equals the result of the same call issued alone on a fresh server and fresh clients. Non-trivial = multiset touching >= 2 routes at parallelism >= 4; distinct by (parallelism, call list).",
 		Assumptions: append([]string{"schedules are sampled by the Go scheduler, not enumerated: a race-free run says nothing beyond the executions seen (weakest claim of the set)", "in-memory transport: the generated client/server code runs concurrently, the kernel network stack does not"}, commonAssumptions...)})
-	registerRuntime(&runtimeCheck{ID: "C20", Profile: schema.ProfileMock, Inner: []string{"c20"}, Prefix: "o", Variant: "server", Param: "generate_mock=true",
+	registerRuntime(&runtimeCheck{ID: "C20", Profile: schema.ProfileMock, Inner: []string{"c20"}, Prefix: "o", Variant: "server", Param: "generate_mock=true", Race: true,
 		BrokenIsViolation: true,
 		Filter: func(s *schema.Schema, avoid map[string]string) bool {
 			return avoid["mock_unsupported_fields"] == "" || schema.MockCompilable(s)
